@@ -239,6 +239,9 @@ func debugExplain(res *FFResult) {
 			}
 		}
 	}
+	if s := os.Getenv("GWEVENTS"); s != "" {
+		debugEvents(res, s)
+	}
 	q := os.Getenv("GWEXPLAIN")
 	if q == "" {
 		return
@@ -282,4 +285,17 @@ func doReplay(path, tier string) int {
 		fmt.Printf("replay: %s is no longer reported on the current tree\n", rep.Key)
 	}
 	return rc
+}
+
+func debugEvents(res *FFResult, sink string) {
+	for _, ev := range res.Events {
+		if ev.Sink == sink {
+			var ls []string
+			for id, b := range ev.Labels {
+				ls = append(ls, fmt.Sprintf("%s/%d/%d", id.String(), b, ev.Data[id]))
+			}
+			sort.Strings(ls)
+			fmt.Printf("   event %s in %s: %v\n", sink, fnKey(ev.Fn), ls)
+		}
+	}
 }
